@@ -92,9 +92,25 @@ def _same_num(a, b, k):
 
 
 def _same_arr(a, b):
+    """tolerance rule entry by entry; a division by an exact zero (degenerate prox parameter, only reachable with a
+    non-positive scale) gives inf per component in the model and nan+nanj for complex data in jax: positions where one
+    side is non-finite must be non-finite on the other side as well"""
     a = np.asarray(a, dtype=np.float64).ravel()
     b = np.asarray(b, dtype=np.float64).ravel()
-    return a.shape == b.shape and common.allclose(a, b, k=max(1, a.size), rtol=TOL)
+    if a.shape != b.shape:
+        return False
+    fa, fb = np.isfinite(a), np.isfinite(b)
+    if not np.array_equal(fa, fb):
+        # complex entries are interleaved: a non-finite real part may come with a finite imaginary part on one side only
+        if a.size % 2 == 0:
+            pa = fa.reshape(-1, 2).all(axis=1)
+            pb = fb.reshape(-1, 2).all(axis=1)
+            if not np.array_equal(pa, pb):
+                return False
+            keep = np.repeat(pa, 2)
+            return common.allclose(a[keep], b[keep], k=max(1, a.size), rtol=TOL)
+        return False
+    return common.allclose(a[fa], b[fa], k=max(1, a.size), rtol=TOL)
 
 
 def _blocks_of(case, j):
@@ -560,6 +576,13 @@ def correspond(ctx, model):
         run_tree_case(ctx, model, scico, gen_tree_case(ctx, "boundary"), oracle, "boundary")
     for _ in range(ctx.n(15, 100)):
         run_tree_case(ctx, model, scico, gen_blockcount_case(ctx), oracle, "malformed")
+    for _ in range(ctx.n(40, 400)):
+        case = G.gen_translate_case(ctx.rng)
+        shape = G.norm_shape(case["shape"])
+        case["x"] = G.random_arg_json(ctx.rng, shape, False)
+        case["v"] = G.random_arg_json(ctx.rng, shape, False)
+        case["lam"] = f2b(G.pos_dyadic(ctx.rng))
+        run_tree_case(ctx, model, scico, case, oracle, "translate")
     for _ in range(ctx.n(80, 800)):
         run_sql2_case(ctx, model, scico, gen_sql2_case(ctx), soracle)
     run_moreau(ctx, scico)
